@@ -668,6 +668,13 @@ class XMLRootElement(XMLElement):
 
             root = XMLRootElement.from_string(xml_data)
 
+            end = xml_data.rstrip()
+            if not (
+                end.endswith('</' + root.tag + '>') or
+                (not len(root) and root.text is None and end.endswith('/>'))
+            ):
+                raise XMLLoadError('incomplete xml file: ' + file_path)
+
             if xml_data:
                 with open(file_path + '.backup', 'w') as f:
                     f.write(xml_data)
